@@ -3,6 +3,7 @@
 package extendeddaemonsetreplicaset
 
 import (
+	"github.com/DataDog/extendeddaemonset/pkg/controller/utils/comparison"
 	"context"
 	"errors"
 	"time"
@@ -73,19 +74,32 @@ func ZZ_C05_failedMarkOutlivesTheCanary() {
 // answers that write with a Conflict.  Whatever the sync does about it, the mark survives — after the
 // conflicting sync, after the next one (one minute later), and the ExtendedDaemonSet reconcile that
 // follows (canary duration elapsed) does not promote the failed canary.
-func ZZ_C05_manualFailRacingWithTheSync() {
+func ZZ_C05_manualFailRacingWithTheSync() { zzManualFailRace("C05.race") }
+
+// ZZ_C07_manualFailRacingWithTheSync: the same race seen from C07: "when the canary replica set is marked
+// failed ... by the user, the controller restores spec.template ... clears status.canary" — a mark the
+// command reported as written leads to the rollback even if it landed in the middle of a sync.
+func ZZ_C07_manualFailRacingWithTheSync() { zzManualFailRace("C07.race") }
+
+func zzManualFailRace(prop string) {
 	c, ds, rsNew, rsOld := zzStore(2)
 	ds.Spec.Strategy.Canary = &datadoghqv1alpha1.ExtendedDaemonSetSpecStrategyCanary{Duration: &metav1.Duration{Duration: nondet.Duration("canary.duration", time.Minute, time.Hour)}}
 	datadoghqv1alpha1.DefaultExtendedDaemonSetSpec(&ds.Spec, datadoghqv1alpha1.ExtendedDaemonSetSpecStrategyCanaryValidationModeAuto)
-	ds.Spec.Template = rsNew.Spec.Template
+	// the replica sets carry the real hashes of their templates, so that the ExtendedDaemonSet controller
+	// recognises them
+	hNew, _ := comparison.GenerateMD5PodTemplateSpec(&rsNew.Spec.Template)
+	hOld, _ := comparison.GenerateMD5PodTemplateSpec(&rsOld.Spec.Template)
+	rsNew.Spec.TemplateGeneration, rsNew.Annotations = hNew, map[string]string{datadoghqv1alpha1.MD5ExtendedDaemonSetAnnotationKey: hNew}
+	rsOld.Spec.TemplateGeneration, rsOld.Annotations = hOld, map[string]string{datadoghqv1alpha1.MD5ExtendedDaemonSetAnnotationKey: hOld}
+	ds.Spec.Template = *rsNew.Spec.Template.DeepCopy()
 	ds.Status.ActiveReplicaSet = rsOld.Name
 	ds.Status.Canary = &datadoghqv1alpha1.ExtendedDaemonSetStatusCanary{ReplicaSet: rsNew.Name, Nodes: []string{zzNodeName(0)}}
 	ds.Status.State = datadoghqv1alpha1.ExtendedDaemonSetStatusStateCanary
 	rsNew.CreationTimestamp = metav1.NewTime(nondet.Base().Add(-nondet.Duration("canary.age", time.Minute, 2*time.Hour)))
 	rsOld.CreationTimestamp = metav1.NewTime(nondet.Base().Add(-24 * time.Hour))
 	c.Pods = append(c.Pods,
-		zzPod("canary-pod", zzNodeName(0), zzRSName, zzHashNew, 0, corev1.PodRunning, true, nondet.Base().Add(-9*time.Minute)),
-		zzPod("active-pod", zzNodeName(1), zzOldRS, zzHashOld, 0, corev1.PodRunning, true, nondet.Base().Add(-time.Hour)))
+		zzPod("canary-pod", zzNodeName(0), zzRSName, hNew, 0, corev1.PodRunning, true, nondet.Base().Add(-9*time.Minute)),
+		zzPod("active-pod", zzNodeName(1), zzOldRS, hOld, 0, corev1.PodRunning, true, nondet.Base().Add(-time.Hour)))
 	raced := false
 	c.OnStatusUpdate = func(kind, name string) error {
 		if raced || kind != "ExtendedDaemonSetReplicaSet" || name != rsNew.Name {
@@ -115,13 +129,16 @@ func ZZ_C05_manualFailRacingWithTheSync() {
 	}
 	r := zzReconciler(c, false)
 	_, _ = zzReconcile(r, zzNS, rsNew.Name)
-	nondet.Assert("C05.race.the-other-write-happened", raced)
-	nondet.Assert("C05.race.mark-survives-the-conflicting-sync", failedMark())
+	nondet.Assert(prop+".the-other-write-happened", raced)
+	nondet.Assert(prop+".mark-survives-the-conflicting-sync", failedMark())
 	zzKubelet(c)
 	_, _ = zzReconcile(r, zzNS, rsNew.Name)
-	nondet.Assert("C05.race.mark-survives-the-next-sync", failedMark())
+	nondet.Assert(prop+".mark-survives-the-next-sync", failedMark())
 	edsRec, _ := edsctrl.NewReconciler(edsctrl.ReconcilerOptions{DefaultValidationMode: datadoghqv1alpha1.ExtendedDaemonSetSpecStrategyCanaryValidationModeAuto}, c, c.Scheme(), logr.Logger{}, &fakeapi.Recorder{})
 	_, _ = edsRec.Reconcile(context.TODO(), reconcile.Request{NamespacedName: types.NamespacedName{Namespace: zzNS, Name: zzEDSName}})
-	nondet.Assert("C05.race.failed-canary-not-promoted", c.EDS[0].Status.ActiveReplicaSet == rsOld.Name)
-	nondet.Reach("C05.race.done", raced && failedMark())
+	nondet.Assert(prop+".failed-canary-not-promoted", c.EDS[0].Status.ActiveReplicaSet == rsOld.Name)
+	// ... and rolls back: the canary block is gone and the template is the active replica set's again
+	nondet.Assert(prop+".rolled-back", c.EDS[0].Status.Canary == nil && len(c.EDS[0].Spec.Template.Spec.Containers) == 1 &&
+		c.EDS[0].Spec.Template.Spec.Containers[0].Image == rsOld.Spec.Template.Spec.Containers[0].Image)
+	nondet.Reach(prop+".done", raced && failedMark())
 }
